@@ -50,11 +50,18 @@ let sh = ref 0
 let empty_fb = { fw = Z0; fh = Z0; rows = [] }
 let st = ref { mainscr = { ssw = Z0; ssh = Z0; ssref = Z0; ssfb = empty_fb }; chain = []; clients = [] }
 
+(* [x1; y1; w1; h1; ax; ay] ++ sxs (w1) ++ sys (h1) ++ cxs (w1) ++ cys (h1), see ScaleF.upd_geomF *)
 let geom_of (l : int list) : geom =
-  match List.map z_of_int l with
-  | [a; b; c; d; e; f; g; h] -> { gx1 = a; gy1 = b; gw1 = c; gh1 = d; gsx0 = e; gsy0 = f; gax = g; gay = h }
-  | _ -> { gx1 = Z0; gy1 = Z0; gw1 = Z0; gh1 = Z0; gsx0 = Z0; gsy0 = Z0; gax = Z0; gay = Z0 }
-let zero8 = [0; 0; 0; 0; 0; 0; 0; 0]
+  let rec take k l = if k <= 0 then ([], l) else match l with [] -> ([], []) | a :: t -> let (x, r) = take (k - 1) t in (a :: x, r) in
+  match l with
+  | a :: b :: c :: d :: e :: f :: rest ->
+      let (sxs, r1) = take c rest in let (sys, r2) = take d r1 in
+      let (cxs, r3) = take c r2 in let (cys, _) = take d r3 in
+      let z = List.map z_of_int in
+      { gx1 = z_of_int a; gy1 = z_of_int b; gw1 = z_of_int c; gh1 = z_of_int d; gax = z_of_int e; gay = z_of_int f;
+        gsxs = z sxs; gsys = z sys; gcxs = z cxs; gcys = z cys }
+  | _ -> { gx1 = Z0; gy1 = Z0; gw1 = Z0; gh1 = Z0; gax = Z0; gay = Z0; gsxs = []; gsys = []; gcxs = []; gcys = [] }
+let zero8 = [0; 0; 0; 0; 0; 0]
 
 (* geometry of rfbScaledScreenUpdateRect(main W x H -> w x h, rectangle) *)
 let geom_query w h x y ww hh : geom option =
